@@ -14,6 +14,7 @@ from ckl.parser import parse_script
 from ckl.date import to_oa_date, to_date
 from ckl.values import (
     Args,
+    dateFromNumber,
     StringInput,
     FileInput,
     FileOutput,
@@ -584,9 +585,13 @@ class FuncAdd(ValueFunc):
             return result
 
         if a.isDate() and b.isNumerical():
-            return ValueDate(
-                to_date(to_oa_date(a.value) + args.getAsDecimal("b").value)
-            )
+            try:
+                return dateFromNumber(
+                    to_oa_date(a.value) + args.getAsDecimal("b").value
+                )
+            except CklRuntimeError as e:
+                e.pos = pos
+                raise
 
         if (a.isString() and b.isAtomic()) or (a.isAtomic() and b.isString()):
             return ValueString(a.asString().value + b.asString().value)
@@ -3963,9 +3968,13 @@ class FuncSub(ValueFunc):
                 # float (3.0) and carries rounding noise (2.9999999999)
                 diff = (a.value - b.value) / datetime.timedelta(days=1)
                 return ValueInt(math.trunc(diff))
-            return ValueDate(
-                to_date(to_oa_date(a.value) - args.getAsDecimal("b").value)
-            )
+            try:
+                return dateFromNumber(
+                    to_oa_date(a.value) - args.getAsDecimal("b").value
+                )
+            except CklRuntimeError as e:
+                e.pos = pos
+                raise
 
         if a.isNull() or b.isNull():
             return NULL
